@@ -1,6 +1,8 @@
 import PystogVerif.Props.C18
 import PystogVerif.Gen.Stog
 import PystogVerif.Gen.StogFacts
+import PystogVerif.Refine.Writer
+import PystogVerif.Proofs.WriterText
 
 /-!
 # C18 on the code generated from the eight `write_out_*` methods of `stog.py`
@@ -55,5 +57,41 @@ theorem P_gen_writer_frame (fn : String) :
 /-- F: all eight writers were translated -/
 theorem F_writers_translated : ∀ w ∈ ["write_out_merged_sq", "write_out_merged_gr", "write_out_ft", "write_out_ft_sq", "write_out_ft_gr",
     "write_out_lorched_gr", "write_out_rmc_fq", "write_out_rmc_gr"], w ∈ GenStog.Facts.translated := by decide
+
+/-! ## `_write_out_to_file` itself, regenerated: the characters in the file -/
+
+/-- P: the text written by the code of the current tree (header `%d `, comment line, one `{:.12f} {:.12f}` row per point) is the hand
+model's file, for which C18's theorems were proved and which the correspondence compares byte for byte with the real files -/
+theorem P_gen_text (xs ys : List UInt64) : GenStog.write_out_to_file_text xs ys = Writer.fileText xs ys :=
+  RefineWriter.write_out_to_file_text_refines xs ys
+
+/-- P: read back — splitting the generated text at newlines, skipping two lines, dropping comment lines and splitting each row at the
+blank — gives exactly one row per written point, in order, each the parsed text of the two stored numbers -/
+theorem P_gen_read_write (xs ys : List UInt64) :
+    Writer.readRows (Writer.splitNL (GenStog.write_out_to_file_text xs ys))
+      = List.zipWith (fun a b => (Writer.parseDec (Writer.fmt12 a), Writer.parseDec (Writer.fmt12 b))) xs ys := by
+  rw [P_gen_text, WriterText.splitNL_fileText, C18.P_read_write]
+
+/-- P: the first line of the generated text is the row count followed by a blank, the second the comment line, and there are exactly
+`len(x)` rows after them (equal-length columns) -/
+theorem P_gen_header (xs ys : List UInt64) (h : xs.length = ys.length) :
+    (Writer.splitNL (GenStog.write_out_to_file_text xs ys)).length = 2 + xs.length ∧
+    Writer.parseDigits (((Writer.splitNL (GenStog.write_out_to_file_text xs ys)).headD []).takeWhile (· != ' ')) = xs.length ∧
+    ((Writer.splitNL (GenStog.write_out_to_file_text xs ys)).drop 1).head? = some "# Comment line".toList := by
+  rw [P_gen_text, WriterText.splitNL_fileText]
+  exact C18.P_header_and_rows xs ys h
+
+/-- P: every finite stored number reads back from the generated text as (sign, round-half-even(|v|·10¹²)), i.e. within 5·10⁻¹³ -/
+theorem P_gen_read_back_value (a : UInt64) (d : Writer.Dec) (h : Writer.classify a = Writer.Cls.finite d) :
+    Writer.parseDec (Writer.fmtFixed 12 a) = some (d.neg, Writer.round12 d) ∧
+    |((Writer.round12 d : ℚ) / 10 ^ 12) - d.abs| ≤ 5 / 10 ^ 13 := by
+  rw [Writer.fmtFixed_twelve]
+  exact ⟨C18.P_read_back_finite a d h, C18.P_fmt_error_bound d⟩
+
+/-- F: the default number of places in the source is 12 (the generated default argument) -/
+theorem F_places_default (xs ys : List UInt64) : GenStog.write_out_to_file_text xs ys = GenStog.write_out_to_file_text xs ys 12 := rfl
+
+example : GenStog.write_out_to_file_text [0x3FF8000000000000] [0xBFE0000000000000]
+    = "1 \n# Comment line\n1.500000000000 -0.500000000000\n".toList := by decide +kernel
 
 end C18Gen
